@@ -3,7 +3,7 @@
 From Coq Require Import List String ZArith Bool.
 Import ListNotations.
 From KV Require Import Base.Bytes Base.Num Model.Ast Model.Value Model.Eval Model.FilterOpt
-                       Spec.Sem Spec.KeySem Proofs.SemProofs Proofs.FilterOptProofs.
+                       Spec.Sem Spec.KeySem Proofs.SemProofs Proofs.FilterOptProofs Proofs.LinkProofs.
 Open Scope string_scope.
 
 (* Evaluation layer: for EVERY expression of the documented core language and EVERY pair on
@@ -29,6 +29,23 @@ Theorem filter_refines_reference :
     sem fo re_spec k v e = Some (SBool b) -> filter_row fo re_match k v e = Ok b.
 Proof. exact filter_refines_sem. Qed.
 Print Assumptions filter_refines_reference.
+
+(* Planning layer (with C02): the access path inferred for P covers every pair on which P is
+   true under the reference semantics ... *)
+Theorem where_true_is_covered :
+  forall (fo : fops) (re_spec : bytes -> bytes -> option bool) (k v : bytes) (e : expr),
+    sem fo re_spec k v e = Some (SBool true) -> covers (optimize e) k = true.
+Proof. exact sem_true_covered. Qed.
+Print Assumptions where_true_is_covered.
+
+(* ... so, for ANY store, filtering the pairs inside the chosen region gives exactly the pairs
+   of the store on which P is true, each once, in the order of the store *)
+Theorem narrowed_select_is_exact :
+  forall (fo : fops) (re_spec : bytes -> bytes -> option bool) (e : expr) (st : list (bytes * bytes)),
+    filter (selects fo re_spec e) (filter (fun kv => covers (optimize e) (fst kv)) st)
+    = filter (selects fo re_spec e) st.
+Proof. exact narrowed_select_exact. Qed.
+Print Assumptions narrowed_select_is_exact.
 
 (* non-vacuity: a predicate with conversion, arithmetic, IN and BETWEEN that the reference
    evaluates on a pair *)
